@@ -269,6 +269,8 @@ class Interp:
             if a == "adt":
                 if rv["adt"].endswith("option::Option"):
                     return ("opt", ops[0]) if rv["variant"] == "Some" else ("opt", None)
+                if not ops and rv.get("vidx") is not None:
+                    return ("enum", rv["adt"], int(rv["vidx"]))      # a field-less variant of a crate enum (a mode switch such as `Charset::WithColon`)
                 raise Unknown("aggregate %s" % rv["adt"])
             raise Unknown("aggregate kind %s" % a)
         if k == "binop":
@@ -300,6 +302,8 @@ class Interp:
             v = self.load(b, env, rv["pl"])
             if isinstance(v, tuple) and v[0] == "opt":
                 return ("discr", 0 if v[1] is None else 1)
+            if isinstance(v, tuple) and v[0] == "enum":
+                return ("discr", v[2])
             raise Unknown("discriminant of %r" % (v,))
         if k == "cast":
             return self.operand(b, env, rv["ops"][0])
@@ -324,6 +328,33 @@ class Interp:
             if last == "is_digit":
                 return pred_on_class("is_ascii_digit", c[1])     # radix 10 assumed; other radices are not modelled
             return pred_on_class(last, c[1])
+        # the same string seen as bytes: every byte of a non-ASCII character is >= 0x80, i.e. above every ASCII constant, and no ASCII predicate holds for it --
+        # exactly how the non-ASCII classes behave in comparisons with ASCII constants (cmp_class_const refuses constants above 127)
+        if any("::<impl u8>::" in n for n in names) and last.startswith("is_ascii"):
+            c = args[0]
+            if not (isinstance(c, tuple) and c[0] == "cls"):
+                raise Unknown("byte predicate on %r" % (c,))
+            return pred_on_class(last, c[1])
+        if m("str::as_bytes") or m("String::as_bytes"):
+            if args[0] != ("str",):
+                raise Unknown("as_bytes of something that is not the validated string")
+            return ("bytes",)
+        if m("str::bytes") and args[0] == ("str",):
+            return Chars()
+        if (m("slice::split_first")) and args[0] == ("bytes",):
+            if self.first == "EMPTY":
+                return ("opt", None)
+            rest = Chars()
+            rest.taken = 1
+            return ("opt", ("tuple", [("cls", self.first), rest]))
+        if (m("slice::first")) and args[0] == ("bytes",):
+            return ("opt", None) if self.first == "EMPTY" else ("opt", ("cls", self.first))
+        if m("slice::iter") and isinstance(args[0], Chars):
+            return args[0]
+        if m("slice::is_empty") and args[0] == ("bytes",):
+            return self.first == "EMPTY"
+        if m("slice::iter") and args[0] == ("bytes",):
+            return Chars()
         if m("str::chars"):
             return Chars()
         if m("str::is_empty") or m("String::is_empty"):
